@@ -209,3 +209,13 @@ Theorem C07_GenerateKeyPair : forall (e : C_GenerateKeyPair.env),
     (negb (C_GenerateKeyPair.hv1_ispublicKeyPrivate e =? 0) || negb (C_GenerateKeyPair.hv2_isprivateKeyPrivate e =? 0)) = CKR_OK.
 Proof. exact GenerateKeyPair_guards. Qed.
 Print Assumptions C07_GenerateKeyPair.
+
+(* SoftHSM::isMechanismPermitted itself (regenerated, translated to the end) *)
+Theorem C07_isMechanismPermitted : forall (e : isMechanismPermitted.env),
+  isMechanismPermitted.app e = true ->
+  isMechanismPermitted.find e (isMechanismPermitted.mechs_begin e) (isMechanismPermitted.mechs_end e) (isMechanismPermitted.pMechanism_mechanism e)
+    <> isMechanismPermitted.mechs_end e /\
+  (isMechanismPermitted.allowed_empty e <> 0 \/
+   isMechanismPermitted.allowed_find e (isMechanismPermitted.pMechanism_mechanism e) <> isMechanismPermitted.allowed_end e).
+Proof. exact isMechanismPermitted_spec. Qed.
+Print Assumptions C07_isMechanismPermitted.
